@@ -79,7 +79,7 @@ inductive Label where
   | lock (w : Nat)        -- lock-update
   | fail (w : Nat)
   | exit (w : Nat)
-  | abort (w : Nat)       -- `if err != nil { return }` of `Phase`'s workers
+  | abort (w : Nat)       -- `if err != nil { return }` of `Phase`'s workers: the job just computed is dropped
   | wait                  -- wait-return
   | closeRes              -- close-results
   | drain                 -- `for range jobs {}` after `Wait`
@@ -128,8 +128,10 @@ def step? (P : Params J V) (c : Cfg J V) : Label → Option (Cfg J V)
     | _, _ => none
   | .abort w =>
     match c.workers[w]? with
-    | some .idle =>
-      if c.err.isSome then some { c with workers := c.workers.set w .exited, wg := c.wg - 1 } else none
+    | some (.holding j) =>
+      if c.err.isSome then
+        some { c with workers := c.workers.set w .exited, dropped := j :: c.dropped, wg := c.wg - 1 }
+      else none
     | _ => none
   | .wait => if c.wg = 0 ∧ c.waited = false then some { c with waited := true } else none
   | .closeRes => if c.waited = true ∧ c.resClosed = 0 then some { c with resClosed := 1 } else none
